@@ -3,11 +3,13 @@
 #include <algorithm>
 #include <cerrno>
 #include <cstdlib>
+#include <cstring>
 #include <ctime>
 #include <fcntl.h>
 #include <signal.h>
 #include <sys/mman.h>
 #include <sys/stat.h>
+#include <sys/time.h>
 #include <sys/wait.h>
 #include <unistd.h>
 
@@ -157,7 +159,25 @@ static void fill_tape(std::vector<uint8_t> &tape, uint64_t seed, const char *pro
 
 struct SampleSlot { bool used = false; int mode = 0; std::vector<uint8_t> tape; uint64_t ops = 0; };
 
+// Second line of the termination guard: a loop whose condition the compiler found invariant ("jmp self") passes no instrumented edge,
+// so the edge budget never sees it.  A CPU-time (not wall-clock: independent of the machine's load) interval timer fires every 5 s of
+// user time consumed by this process; four firings within one and the same case mean that a single case burnt 15..25 CPU seconds
+// (the largest generated case needs a fraction of a second) and are reported as a violation of "each step terminates".
+static volatile uint64_t g_case_serial = 0;
+static uint64_t g_wd_seen = ~0ull; static int g_wd_stuck = 0;
+static void watchdog_tick(int) {
+  if (g_case_serial != g_wd_seen) { g_wd_seen = g_case_serial; g_wd_stuck = 0; return; }
+  if (++g_wd_stuck < 4) return;
+  if (g_ctx) g_ctx->fail("termination", "one case consumed more than 15 s of CPU time without finishing (unbounded loop)");
+  _exit(98);
+}
+static void watchdog_arm() {
+  struct sigaction sa; memset(&sa, 0, sizeof sa); sa.sa_handler = watchdog_tick; sigaction(SIGVTALRM, &sa, nullptr);
+  struct itimerval it; it.it_interval.tv_sec = 5; it.it_interval.tv_usec = 0; it.it_value = it.it_interval; setitimer(ITIMER_VIRTUAL, &it, nullptr);
+}
+
 static void run_one(Ctx &c, const Mode &m, const uint8_t *d, size_t n, bool logging, bool record) {
+  g_case_serial++;
   c.t.record = record;
   c.t.reset(d, n);
   c.param = O.thorough ? m.thorough_param : m.quick_param;
@@ -179,7 +199,7 @@ static void run_one(Ctx &c, const Mode &m, const uint8_t *d, size_t n, bool logg
 static int worker(int w, int W, Shared *sh, const std::string &dir) {
   g_sh = sh;
   std::map<std::string, uint64_t> classes;
-  Ctx c; c.classes = &classes; c.build = VF_BUILD; g_ctx = &c;
+  Ctx c; c.classes = &classes; c.build = VF_BUILD; g_ctx = &c; watchdog_arm();
   std::vector<uint64_t> hashes;
   uint64_t evals = 0, ops = 0;
   double t0 = now_s(); bool truncated = false;
@@ -342,7 +362,7 @@ static Verdict run_child(const Mode &m, int mi, const std::vector<uint8_t> &tape
     int fd = open(errfile.c_str(), O_WRONLY | O_CREAT | O_TRUNC, 0644);
     if (fd >= 0) { dup2(fd, 2); close(fd); }
     alarm(120);
-    std::map<std::string, uint64_t> classes; Ctx c; c.classes = &classes; c.build = VF_BUILD; g_ctx = &c;
+    std::map<std::string, uint64_t> classes; Ctx c; c.classes = &classes; c.build = VF_BUILD; g_ctx = &c; watchdog_arm();
     sh->mode = mi; sh->tape_len = (uint32_t)std::min<size_t>(tape.size(), sizeof sh->tape);
     c.echo = logging;
     run_one(c, m, tape.data(), tape.size(), logging, false);
@@ -363,12 +383,16 @@ static Verdict run_child(const Mode &m, int mi, const std::vector<uint8_t> &tape
 // ---------------------------------------------------------------- shrinking
 static std::vector<uint8_t> shrink(const Mode &m, int mi, std::vector<uint8_t> tape, const std::string &clause, const std::string &dir, int &tried) {
   std::string ef = dir + "/shrink.err";
+  // the wall budget only bounds how far a failing tape is minimised (candidates that hang until the CPU-time watchdog fires cost 20 s each);
+  // whatever tape is kept has been observed to fail with the same clause
+  const double t_start = now_s(), wall_budget = 120.0;
+  int budget = 4000;
   auto fails = [&](const std::vector<uint8_t> &t) {
     tried++;
+    if (now_s() - t_start > wall_budget) { budget = 0; return false; }
     Verdict v = run_child(m, mi, t, false, ef);
     return v.kind != 0 && v.clause == clause;
   };
-  const int budget = 4000;
   // 1. shortest failing prefix (binary search is sound enough: a shorter prefix either fails or not; verify)
   {
     size_t lo = 0, hi = tape.size();
